@@ -11,10 +11,12 @@ fn main() {
         #[cfg(not(feature = "sym"))]
         "prove_component" => components::prove(&mut ctx, &args[2..]),
         "verify_labels" => protocol::run_verify_labels(&mut ctx, &args[2..]),
+        "decode" => protocol::run_decode(&mut ctx, &args[2..]),
         "decode_probe" => protocol::run_decode_probe(&mut ctx, &args[2..]),
         "verify" => protocol::run_verify(&mut ctx, &args[2..]),
         "kernels" => kernels::run(&mut ctx, &args[2..]),
         "kzg" => kernels::run_kzg(&mut ctx, &args[2..]),
+        "prove_w" => protocol::run_prove_w(&mut ctx, &args[2..]),
         "prove" => protocol::run_prove(&mut ctx, &args[2..]),
         "extract" => gadgets::run(&mut ctx, &args[2..]),
         "extract_batch" => gadgets::run_batch(&mut ctx, &args[2..]),
